@@ -68,7 +68,7 @@ def pick_names(rng, pool, n, avoid=()):
 
 
 def gen_grammar(rng, adversarial=0.3, max_nts=6, max_terms=5, allow_empty_terminals=True,
-                behaviour=False, bias_lalr=0.6):
+                behaviour=False, bias_lalr=0.6, motifs=0.45):
     """Random grammar.  behaviour=True: payload types come from the fixed menu the
     compiled-parser harness knows how to build, and every type derives Debug."""
     g = Grammar()
@@ -138,7 +138,142 @@ def gen_grammar(rng, adversarial=0.3, max_nts=6, max_terms=5, allow_empty_termin
         g.tenum_attrs.append('#[derive(Debug)]')
     elif rng.random() < 0.2:
         g.tenum_attrs.append('#[derive(Clone, Debug)]')
+    if rng.random() < motifs:
+        add_motifs(rng, g, behaviour)
     return g
+
+
+def _fresh_nt(g, base):
+    used = {n['name'] for n in g.nts} | {t for t, _ in g.terminals} | {g.tenum}
+    i = 0
+    while True:
+        name = '%s%d' % (base, i) if i else base
+        if name not in used:
+            return name
+        i += 1
+
+
+def _mk(kind, name, variants, behaviour):
+    return dict(name=name, kind=kind, attrs=(['#[derive(Debug)]'] if behaviour else []), variants=variants)
+
+
+def _wrap(rng, syms):
+    """A fieldset over the given symbols with random used/_ fields."""
+    if not syms:
+        return ('empty',)
+    if rng.random() < 0.5:
+        fn = pick_names(rng, list(FIELD_NAMES), len(syms))
+        return ('named', [((None if rng.random() < 0.25 else fn[i]), s) for i, s in enumerate(syms)])
+    return ('tuple', [((rng.random() >= 0.25), s) for s in syms])
+
+
+def add_motifs(rng, g, behaviour=False):
+    """Grammar shapes that stress the table construction: chains of nonterminals that are nullable only
+    through each other (declared in either order), unit chains, optional lists, alternatives sharing a
+    prefix in different contexts.  Each motif adds fresh nonterminals and hooks them into the grammar."""
+    if not g.terminals:
+        g.terminals.append(('Tm', 'u32'))
+    tn = [t for t, _ in g.terminals]
+    for _ in range(rng.choice([1, 1, 2, 3])):
+        m = rng.choice(['nullable_chain', 'nullable_chain', 'nullable_chain', 'unit_chain', 'opt_list', 'shared_prefix', 'shared_prefix', 'eps_alts'])
+        new = []
+        if m == 'nullable_chain':
+            k = rng.randint(2, 5)
+            names = []
+            for i in range(k):
+                nm = _fresh_nt(g, rng.choice(['Gap', 'Nul', 'Eps', 'Blank']))
+                g.nts.append(_mk('struct', nm, [], behaviour))     # placeholder to reserve the name
+                names.append(nm)
+            del g.nts[len(g.nts) - k:]
+            for i, nm in enumerate(names):
+                if i + 1 < k:
+                    r = rng.random()
+                    if r < 0.6:
+                        new.append(_mk('struct', nm, [(None, _wrap(rng, [('N', names[i + 1])]))], behaviour))
+                    elif r < 0.8:
+                        new.append(_mk('struct', nm, [(None, _wrap(rng, [('N', names[i + 1]), ('N', names[-1])]))], behaviour))
+                    else:
+                        new.append(_mk('enum', nm, [('Thru', _wrap(rng, [('N', names[i + 1])])),
+                                                    ('Tok', _wrap(rng, [('T', rng.choice(tn))]))], behaviour))
+                else:
+                    if rng.random() < 0.6:
+                        new.append(_mk('struct', nm, [(None, ('empty',))], behaviour))
+                    else:
+                        new.append(_mk('enum', nm, [('Nil', ('empty',)), ('One', _wrap(rng, [('T', rng.choice(tn))]))], behaviour))
+            head = ('N', names[0])
+        elif m == 'unit_chain':
+            k = rng.randint(2, 4)
+            names = [None] * k
+            for i in range(k):
+                names[i] = _fresh_nt(g, 'Unit')
+                g.nts.append(_mk('struct', names[i], [], behaviour))
+            del g.nts[len(g.nts) - k:]
+            for i, nm in enumerate(names):
+                tgt = ('N', names[i + 1]) if i + 1 < k else ('T', rng.choice(tn))
+                new.append(_mk('struct', nm, [(None, _wrap(rng, [tgt]))], behaviour))
+            head = ('N', names[0])
+        elif m == 'opt_list':
+            nm = _fresh_nt(g, 'Lst')
+            item = ('T', rng.choice(tn))
+            rec = [('N', nm), item] if rng.random() < 0.5 else [item, ('N', nm)]
+            new.append(_mk('enum', nm, [('Nil', ('empty',)), ('Cons', _wrap(rng, rec))], behaviour))
+            head = ('N', nm)
+        elif m == 'eps_alts':
+            a, b = _fresh_nt(g, 'OptA'), None
+            g.nts.append(_mk('struct', a, [], behaviour))
+            b = _fresh_nt(g, 'OptB')
+            del g.nts[-1]
+            new.append(_mk('enum', a, [('No', ('empty',)), ('Yes', _wrap(rng, [('T', rng.choice(tn))]))], behaviour))
+            new.append(_mk('enum', b, [('No', ('empty',)), ('Yes', _wrap(rng, [('T', rng.choice(tn))]))], behaviour))
+            wrapn = _fresh_nt(g, 'Both')
+            new.append(_mk('struct', wrapn, [(None, _wrap(rng, [('N', a), ('N', b)]))], behaviour))
+            head = ('N', wrapn)
+        else:   # shared_prefix: A -> x y, B -> x z, C -> A | B, contexts p A and q C
+            while len(tn) < 3:
+                t = 'Tk%d' % len(tn)
+                g.terminals.append((t, 'u32'))
+                tn.append(t)
+            x, y, z = rng.sample(tn, 3)
+            a = _fresh_nt(g, 'PreA')
+            g.nts.append(_mk('struct', a, [], behaviour))
+            b = _fresh_nt(g, 'PreB')
+            g.nts.append(_mk('struct', b, [], behaviour))
+            c = _fresh_nt(g, 'PreC')
+            g.nts.append(_mk('struct', c, [], behaviour))
+            d = _fresh_nt(g, 'PreS')
+            del g.nts[len(g.nts) - 3:]
+            new.append(_mk('struct', a, [(None, _wrap(rng, [('T', x), ('T', y)]))], behaviour))
+            new.append(_mk('struct', b, [(None, _wrap(rng, [('T', x), ('T', z)]))], behaviour))
+            new.append(_mk('enum', c, [('A', _wrap(rng, [('N', a)])), ('B', _wrap(rng, [('N', b)]))], behaviour))
+            p, q = rng.sample(tn, 2)
+            new.append(_mk('enum', d, [('P', _wrap(rng, [('T', p), ('N', a)])), ('Q', _wrap(rng, [('T', q), ('N', c)]))], behaviour))
+            head = ('N', d)
+        # declaration order of the new nonterminals: as written (use before definition), reversed, or shuffled
+        r = rng.random()
+        if r < 0.4:
+            pass
+        elif r < 0.7:
+            new.reverse()
+        else:
+            rng.shuffle(new)
+        pos = rng.randint(0, len(g.nts))
+        g.nts[pos:pos] = new
+        # hook the motif into the grammar: a new start production, or in the middle of an existing right-hand side
+        r = rng.random()
+        slots = _all_sym_slots(g)
+        if r < 0.5 or not slots:
+            s0 = _fresh_nt(g, 'Top')
+            before = [rng.choice([('T', rng.choice(tn)), ('N', g.start)])] if rng.random() < 0.7 else []
+            after = [('T', rng.choice(tn))] if rng.random() < 0.7 else []
+            g.nts.insert(rng.randint(0, len(g.nts)), _mk('struct', s0, [(None, _wrap(rng, before + [head] + after))], behaviour))
+            g.start = s0
+        else:
+            n, vi, fi = rng.choice(slots)
+            vname, fs = n['variants'][vi]
+            fields = list(fs[1])
+            extra = (None if fs[0] == 'named' and rng.random() < 0.3 else ('mo%d' % len(fields))) if fs[0] == 'named' else (rng.random() < 0.7)
+            fields.insert(fi + 1 if rng.random() < 0.7 else fi, (extra, head))
+            n['variants'][vi] = (vname, (fs[0], fields))
 
 
 # ---------------------------------------------------------------- rendering
@@ -363,7 +498,7 @@ def mutate_sentence(rng, w, nterm):
 
 LEX_PIECES = ['start', 'struct', 'enum', 'terminal', '_', 'Foo', 'bar_9', '$Tok', '$start', '$_', '$_x', '$', ':', '::', ':::',
               ',', '(', ')', '{', '}', '<', '>', '#[a]', '#[a(b)]', '#[a[b]{c}(d)]', '#[(]]', '#[', '#', '#[x\n]',
-              '#[doc = "é"]', '#[€]', '#[\U0001F600 (x)]', '#[a]]', '#[a)]', '#[{)}]', '/', '//', '// c\n', '//é\n',
+              '#[doc = "é"]', '#[€]', '#[é(]]', '#[€{)}]', '#[doc="ü"(]]', '#[😀[}]', '#[ß(ü])]', '#[a"é"]]', '#[(é)]', '#[{€}]x', '#[\U0001F600 (x)]', '#[a]]', '#[a)]', '#[{)}]', '/', '//', '// c\n', '//é\n',
               '\n', '\r\n', ' ', '\t', ' ', '　', ' ', '4', '4ever', 'x4', 'é', '€', '\U0001F600', '"', "'", ';',
               '=', '-', '+', '*', '!', '@', '[', ']', '\\', '$9', '$$', '$ ', 'struct_', '_struct', 'terminalx', 'START', '#!',
               '#[derive(Debug, Clone)]', '#[cfg(any(a, b))]', '​', '﻿', '\x00', '\x7f', '\u0085']
@@ -467,22 +602,22 @@ def inject_violations(rng, g, k=None):
         elif v == 'lower_nt' and nts:
             n = rng.choice(nts)
             old = n['name']
-            new = rng.choice(['lower9', '_x1', 'a', '_9z'])
+            new = rng.choice(['lower9', '_x1', 'a', '_9z', '_1foo', '__7v', '_0_a'])
             _rename_nt(g, old, new)
         elif v == 'lower_t' and g.terminals:
             i = rng.randrange(len(g.terminals))
             old = g.terminals[i][0]
-            new = rng.choice(['low9', '_t', 'q'])
+            new = rng.choice(['low9', '_t', 'q', '_0num', '__1t'])
             g.terminals[i] = (new, g.terminals[i][1])
             _rename_sym(g, ('T', old), ('T', new))
         elif v == 'lower_tenum' and g.tenum:
-            g.tenum = rng.choice(['tok', '_tok', 't9'])
+            g.tenum = rng.choice(['tok', '_tok', 't9', '_9tok', '__0k'])
         elif v == 'lower_variant':
             es = [n for n in nts if n['kind'] == 'enum' and n['variants']]
             if es:
                 e = rng.choice(es)
                 i = rng.randrange(len(e['variants']))
-                e['variants'][i] = (rng.choice(['low', '_v', 'v9']), e['variants'][i][1])
+                e['variants'][i] = (rng.choice(['low', '_v', 'v9', '__7v', '_1v']), e['variants'][i][1])
         elif v == 'upper_field':
             cands = [(n, i) for n in nts for i, (_, fs) in enumerate(n['variants']) if fs[0] == 'named']
             if cands:
@@ -490,7 +625,7 @@ def inject_violations(rng, g, k=None):
                 vname, fs = n['variants'][i]
                 fields = list(fs[1])
                 j = rng.randrange(len(fields))
-                fields[j] = (rng.choice(['Upper', '_U', 'X']), fields[j][1])
+                fields[j] = (rng.choice(['Upper', '_U', 'X', '_1X', '__0Y']), fields[j][1])
                 n['variants'][i] = (vname, ('named', fields))
         elif v == 'undef_start':
             g.start = 'NoSuchStart9'
@@ -569,5 +704,9 @@ CURATED = {
     'dollar_keyword': '$start',
     'colons': ':::::',
     'empty': '',
+    'nullable_chain_top_down': 'start S\nstruct Head { _: $A }\nstruct S { a: Head  c: C  _: $X }\nstruct C { d: D }\nstruct D { b: B }\nstruct B\nterminal Token { $A: ()  $X: () }\n',
+    'nullable_chain_trailer': 'start Doc\nstruct Doc { head: $Word  mods: Mods  trailer: Trailer }\nenum Mods { Nil  Cons($Bang Mods) }\nenum Trailer { Semi($Semi)  None(Blank) }\nstruct Blank(Nothing)\nstruct Nothing\nterminal Token { $Word: ()  $Bang: ()  $Semi: () }\n',
+    'nullable_chain_conflict': 'start S\nenum S { A(P Gap $X)  B(Q $X) }\nstruct P($Y)\nstruct Q($Y)\nstruct Gap(Gap2)\nstruct Gap2(Gap3)\nstruct Gap3(Gap4)\nstruct Gap4\nterminal T { $X: ()  $Y: () }\n',
+    'prefix_cores': 'start S\nenum S { P($P A)  Q($Q C) }\nenum C { A(A)  B(B) }\nstruct A($X $Y)\nstruct B($X $Z)\nterminal T { $P: ()  $Q: ()  $X: ()  $Y: ()  $Z: () }\n',
     'only_comment': '// nothing',
 }
